@@ -22,7 +22,7 @@ From Coq Require Import List Ascii String Bool PrimFloat Permutation.
 From Verif Require Import Base.Result Base.Str Base.Sexp Base.PyDict Base.Float Model.Tokenizer Model.Domain Model.State
   Model.Trajectory Spec.Pddl Spec.State
   Proofs.C14_Text Proofs.C14_Spec Proofs.C14_Eq Proofs.C14_Main Proofs.C14_Serialize Proofs.C14_Sorted Proofs.C14_Examples
-  Proofs.C10_State Proofs.C10_Sorted Proofs.C14_Mutate.
+  Proofs.C10_State Proofs.C10_Sorted Proofs.C14_Mutate Proofs.C14_Typed.
 From Verif Require Model.Store Proofs.C07_Sep Proofs.C14_Store.
 Import ListNotations.
 
@@ -146,6 +146,25 @@ Theorem C14_mutate_copy_keeps_value : forall (num_text : float -> string) t s, I
   state_eq num_text (state_copy s) (discard_fact t (state_copy s)) = false.
 Proof. exact copy_then_discard. Qed.
 
+(* state_fluents[key].set_value(x): with the datum the fluent already prints nothing changes; with a value that prints
+   differently -- the other zero included -- the state is unequal to what it was (no ground fluent held twice) *)
+Theorem C14_mutate_set_value_same : forall (num_text : float -> string) key x s,
+  (forall f, In (key, f) (st_fluents s) -> pf_int f = false /\ num_text x = num_text (pf_val f)) ->
+  state_eq num_text (set_fluent_value key x s) s = true.
+Proof. exact set_value_same. Qed.
+
+Theorem C14_mutate_set_value : forall (num_text : float -> string) key x f s,
+  forallb pf_ok (dvalues (st_fluents s)) = true -> NoDup (map pf_atom (dvalues (st_fluents s))) ->
+  In (key, f) (st_fluents s) -> num_text x <> num_text (pf_val f) ->
+  state_eq num_text (set_fluent_value key x s) s = false /\ state_eq num_text s (set_fluent_value key x s) = false.
+Proof. exact set_value_unequal. Qed.
+
+Theorem C14_mutate_set_value_example :
+  forallb pf_ok (dvalues (st_fluents ex_s)) = true /\ NoDup (map pf_atom (dvalues (st_fluents ex_s))) /\
+  In ("(g a)", ex_pf "g" [("a", "t")] (-0) [("a", 2)]) (st_fluents ex_s) /\
+  ex_num_text 0 <> ex_num_text (-0) /\ set_fluent_value "(g a)" 0 ex_s = ex_u.
+Proof. exact ex_set_value_hypotheses. Qed.
+
 Theorem C14_mutate_example :
   gp_wf ex_g1 /\ all_wf (all_preds ex_m) /\ In (gp_untyped ex_g1) (fact_texts ex_m) /\
   all_preds (discard_fact (gp_untyped ex_g1) ex_m) = [ex_g2] /\
@@ -197,6 +216,30 @@ Theorem C14_serialize_set_order : forall num_text s t,
   serialize num_text s = serialize num_text t.
 Proof. exact serialize_set_order. Qed.
 
+(* ---------- typed_serialize (wave 3) ---------- *)
+(* State.typed_serialize prints "o - t" for every argument and no ':init' / ':state' head.  It is the headless untyped
+   text of the typed VIEW of the state (every argument o of type t replaced by the three arguments o, -, t), whenever it
+   does not raise (every signature parameter of a fact is mapped, every printed variable of a fluent has a type) ... *)
+Theorem C14_typed_serialize_view : forall num_text s, preds_mapped s -> fluents_typed_ok s ->
+  typed_serialize num_text s = Ok (headless num_text (typed_view s)).
+Proof. exact typed_serialize_view. Qed.
+
+(* ... so the library's reader (C11) returns a token tree of it, and that tree with the types dropped
+   (Spec/State.read_typed_state) is the state: the same facts and the same fluents with the same values *)
+Theorem C14_typed_serialize_reads_back : forall num_text parse_num m s,
+  state_ok s = true -> all_wf (all_preds s) -> fluents_typed_ok s -> types_ok s ->
+  nums_clean num_text s -> (forall x, In x (values s) -> num_ok num_text parse_num x) ->
+  exists t e st, typed_serialize num_text s = Ok t /\ parse m (s2t t) = Ok e /\
+                 read_typed_state parse_num e = Some st /\ State_same st (den s).
+Proof. exact typed_serialize_reads_back. Qed.
+
+Theorem C14_typed_example :
+  state_ok ex_s = true /\ all_wf (all_preds ex_s) /\ fluents_typed_ok ex_s /\ types_ok ex_s /\
+  nums_clean ex_num_text ex_s /\ (forall x, In x (values ex_s) -> num_ok ex_num_text ex_parse_num x) /\
+  typed_serialize ex_num_text ex_s =
+    Ok ("((= (f a - t) 2.5) (= (g a - t a - t) -0.0) (= (h ) nan) (p a - t) (p b - t) (q a - t a - t) (z ))" +++ LFs).
+Proof. exact ex_typed_hypotheses. Qed.
+
 (* ---------- the library's own reader of a state (TrajectoryParser.parse_state) ---------- *)
 Theorem C14_library_readback_partial : forall dom num_text parse_num problem m s,
   state_ok s = true -> nums_clean num_text s -> (forall x, In x (values s) -> num_ok num_text parse_num x) ->
@@ -244,6 +287,9 @@ Print Assumptions C14_mutate_discard_absent.
 Print Assumptions C14_mutate_add.
 Print Assumptions C14_mutate_discard_add_back.
 Print Assumptions C14_mutate_copy_keeps_value.
+Print Assumptions C14_mutate_set_value_same.
+Print Assumptions C14_mutate_set_value.
+Print Assumptions C14_mutate_set_value_example.
 Print Assumptions C14_mutate_example.
 Print Assumptions C14_serialize_sorted.
 Print Assumptions C14_serialize_parse.
@@ -251,6 +297,9 @@ Print Assumptions C14_serialize_text_equal.
 Print Assumptions C14_serialize_set_order.
 Print Assumptions C14_serialize_reads_back.
 Print Assumptions C14_serialize.
+Print Assumptions C14_typed_serialize_view.
+Print Assumptions C14_typed_serialize_reads_back.
+Print Assumptions C14_typed_example.
 Print Assumptions C14_library_readback_partial.
 Print Assumptions C14_library_readback_refuted.
 Print Assumptions C14_example.
